@@ -191,4 +191,9 @@ theorem m6502_text_rejected_classes (b0 b1 b2 : BitVec 8) :
     rcases op15 hrf.1 with e | e | e | e | e | e | e | e | e | e | e | e | e | e | e <;> subst e <;>
       simp [operandOf, bytesOf, opBytes, opConsts]
 
+/-- non-vacuity: a reading that is accepted, and the two rejected classes -/
+example : toStmt 0xb1 0x34 0x00 = some ⟨"lda", .s0, .indY .none 0x34⟩ ∧
+    encode { address := 0x2000 } ⟨"lda", .s0, .indY .none 0x34⟩ = .ok [0xb1, 0x34] := by decide +kernel
+example : toStmt 0xd0 0xfe 0x00 = none ∧ toStmt 0x02 0x00 0x00 = none ∧ toStmt 0x0f 0x12 0x05 = none := by decide +kernel
+
 end NakenVerif.M6502
